@@ -109,7 +109,7 @@ def closure(polys, bools):
         atoms.add(i)
         kind, payload = CTX.atoms[i]
         new = set()
-        if kind in ("sqrt", "recip"):
+        if kind in ("sqrt", "recip", "def"):
             new.update(payload.atoms())
         elif kind == "ite":
             c, a, b = payload
@@ -164,6 +164,9 @@ class Obligation:
                 if with_axioms:
                     defs.append(f"(assert (= (* {nm} {poly_smt(payload)}) 1.0))")
                     nonlinear = True
+            elif kind == "def":
+                if with_axioms:
+                    defs.append(f"(assert (= {nm} {poly_smt(payload)}))")
             elif kind == "ite":
                 c, a, b = payload
                 defs.append(f"(assert (= {nm} (ite {bool_smt(c)} {poly_smt(a)} {poly_smt(b)})))")
@@ -264,12 +267,31 @@ class Result:
         return out
 
 
-def solve(ob: Obligation, timeout_s=60.0, conditioned=True):
-    """Decide an obligation.  Returns Result(status in unsat/sat/unknown)."""
+ABSTRACT_KINDS = ("sqrt", "recip", "def")
+
+
+def _pinned(atoms, seed=0):
+    """Generic seeded rational values for the input variables (used to pin an abstract query to a point)."""
+    import random
+    rng = random.Random(seed)
+    out = []
+    for i in atoms:
+        if CTX.atoms[i][0] == "var":
+            v = Fraction(rng.randint(-16, 16), 8)
+            if v == 0:
+                v = Fraction(3, 8)
+            out.append((i, v))
+    return out
+
+
+def solve(ob: Obligation, timeout_s=60.0, conditioned=True, confirm=None):
+    """Decide an obligation.  Returns Result(status in unsat/sat/unknown).
+
+    confirm(values, bvalues) -> bool : optional replay on the real code; used to accept a witness obtained from
+    the ABSTRACT query (axioms of sqrt/recip/def atoms dropped) without paying for the refined query."""
     t_total = 0.0
-    has_defined = True
     script, atoms, bvars = ob.script(with_axioms=False)
-    has_defined = any(CTX.atoms[i][0] in ("sqrt", "recip") for i in atoms)
+    has_defined = any(CTX.atoms[i][0] in ABSTRACT_KINDS for i in atoms)
     r, s, dt = _z3_check(script, timeout_s)
     t_total += dt
     if r == "unsat":
@@ -278,7 +300,26 @@ def solve(ob: Obligation, timeout_s=60.0, conditioned=True):
             SOLVER_STATS["abstract_unsat"] += 1
         return Result("unsat", solver_s=t_total, detail="abstract" if has_defined else "exact")
     if has_defined:
-        # refine: re-ask with the defining axioms of sqrt / recip atoms
+        if confirm is not None and r == "sat":
+            # candidate witness: the abstract query pinned to a generic point of the input space
+            pins = _pinned(atoms, seed=len(atoms))
+            extra = "\n".join(f"(assert (= {_aname(i)} {_rat(v)}))" for i, v in pins)
+            r0, s0, dt0 = _z3_check(script + "\n" + extra, min(timeout_s, 20.0))
+            t_total += dt0
+            cands = []
+            if r0 == "sat":
+                cands.append(_model_values(s0, atoms, bvars))
+            cands.append(_model_values(s, atoms, bvars))
+            for vals, bv, m in cands:
+                res = Result("sat", vals, bv, t_total, "abstract-model witness confirmed by replay on the real code", m)
+                try:
+                    ok = confirm({k: float(v) for k, v in res.var_values().items()}, {k: bool(v) for k, v in bv.items()})
+                except Exception:  # noqa: BLE001
+                    ok = False
+                if ok:
+                    SOLVER_STATS["sat"] += 1
+                    return res
+        # refine: re-ask with the defining axioms of sqrt / recip / def atoms
         SOLVER_STATS["refined"] += 1
         script, atoms, bvars = ob.script(with_axioms=True)
         r, s, dt = _z3_check(script, timeout_s)
@@ -310,7 +351,7 @@ def crosscheck(ob: Obligation, expect, timeout_s=60):
     solver->answer; a definite answer different from `expect` or an `(error` line is a disagreement."""
     script, atoms, bvars = ob.script(with_axioms=(expect != "unsat_abstract"))
     uses_uf = "declare-fun" in script
-    nonlin = any(CTX.atoms[i][0] in ("sqrt", "recip") for i in atoms) or any(
+    nonlin = any(CTX.atoms[i][0] in ABSTRACT_KINDS for i in atoms) or any(
         len(m) > 1 for l, r in ob.pairs for p in (l, r) for m in p.t)
     logic = "QF_" + ("UF" if uses_uf else "") + ("NRA" if nonlin else "LRA")
     text = f"(set-logic {logic})\n" + script + "\n(check-sat)\n"
